@@ -43,7 +43,7 @@ fn hash(k: u8) -> InfoHash {
 }
 
 pub fn build(cfg: &Cfg) -> (Scenario, Vec<Box<dyn Peer>>) {
-    let base = c01::Cfg { n: cfg.mesh, v6: cfg.v6, port: None, placement: 0, announcer: 0, searcher: cfg.mesh - 1, announcer2: None, announcer2_gap_ms: 500, offset_ms: 1000, reannounce_ms: None, matrix: None, rng_seed: cfg.rng_seed };
+    let base = c01::Cfg { n: cfg.mesh, v6: cfg.v6, port: None, placement: 0, announcer: 0, searcher: cfg.mesh - 1, announcer2: None, announcer2_gap_ms: 500, offset_ms: 1000, reannounce_ms: None, matrix: None, usage: 0, rng_seed: cfg.rng_seed };
     let mut sc = c01::scenario(&base);
     sc.actions.retain(|(_, a)| !matches!(a, Action::Search { tag, .. } if tag == "search"));
     sc.stop_after.clear();
